@@ -498,13 +498,23 @@ func (eval Evaluator) EvaluateConjugateInvariant(ctLeftN1Q0, ctRightN1Q0 *rlwe.C
 		return nil, nil, fmt.Errorf("ctLeftN1Q0 cannot be nil")
 	}
 
+	// A ciphertext with fewer slots than the bootstrapping circuit handles is a valid (replicated) ciphertext with
+	// that many slots: as pack/unpack do for the standard ring, it is bootstrapped with the dimensions of the circuit
+	// and gets its own dimensions back afterwards.
+	logDimensions := ctLeftN1Q0.LogDimensions
+	if logDimensions.Cols > eval.Parameters.LogMaxSlots() || (ctRightN1Q0 != nil && ctRightN1Q0.LogDimensions != logDimensions) {
+		return nil, nil, fmt.Errorf("ciphertexts must have the same dimensions and at most 2^%d slots", eval.Parameters.LogMaxSlots())
+	}
+
 	// Switches ring from ring.ConjugateInvariant to ring.Standard
 	ctLeftN2Q0 := eval.RealToComplexNew(ctLeftN1Q0)
+	ctLeftN2Q0.LogDimensions = eval.Parameters.LogMaxDimensions()
 
 	// Repacks ctRightN1Q0 into the imaginary part of ctLeftN1Q0
 	// which is zero since it comes from the Conjugate Invariant ring)
 	if ctRightN1Q0 != nil {
 		ctRightN2Q0 := eval.RealToComplexNew(ctRightN1Q0)
+		ctRightN2Q0.LogDimensions = ctLeftN2Q0.LogDimensions
 
 		if err = eval.Evaluator.Mul(ctRightN2Q0, 1i, ctRightN2Q0); err != nil {
 			return nil, nil, fmt.Errorf("cannot BootstrapMany: %w", err)
@@ -527,6 +537,7 @@ func (eval Evaluator) EvaluateConjugateInvariant(ctLeftN1Q0, ctRightN1Q0 *rlwe.C
 
 	// Switches ring from ring.Standard to ring.ConjugateInvariant
 	ctLeftN1QL = eval.ComplexToRealNew(ctLeftAndRightN2QL)
+	ctLeftN1QL.LogDimensions = logDimensions
 
 	// Extracts the imaginary part
 	if ctRightN1Q0 != nil {
@@ -534,6 +545,7 @@ func (eval Evaluator) EvaluateConjugateInvariant(ctLeftN1Q0, ctRightN1Q0 *rlwe.C
 			return nil, nil, fmt.Errorf("cannot BootstrapMany: %w", err)
 		}
 		ctRightN1QL = eval.ComplexToRealNew(ctLeftAndRightN2QL)
+		ctRightN1QL.LogDimensions = logDimensions
 	}
 
 	return
